@@ -16,7 +16,7 @@ def _task(relpath, qual):
         fr = frame.Frame(relpath, qual)
         for name, ok, bad in fr.run():
             ctx.oblige(f"{qual}/{name}", [], z3.BoolVal(True) if ok else z3.Bool("may_touch_" + "_".join(bad)[:60].replace(" ", "")), "frame-abs")
-        return {"function": f"{relpath}::{qual}", "sha256": fr.sha, "lines": [fr.fn.lineno, fr.fn.end_lineno],
+        return {"function": f"{relpath}::{qual}", "sha256": fr.sha, "lines": engine.abs_lines(fr.fn),
                 "variants": ["frame mode: values abstracted, all branches"], "circuit_params": fr.circ_params}
     return run
 
